@@ -55,10 +55,89 @@ def check(prog, ctx):
     ctx.rule('C11.e', 'Brent keeps the best point: (x,fx) is overwritten only by (u, F(u)) on a path where fu <= fx; the returned point is x; '
              'the bracketing step keeps fb <= fa on every path, returns only brackets (fb <= fa, fb <= fc) and every stored value is the function at its abscissa', 5)
     ctx.rule('C11.f', 'Find_Maximum(f) is Find_Minimum(-f) with the same bracket and tolerance', 1)
+    ctx.rule('C11.g', 'per-call state: every scalar member of Minimization that minimize(simplex, func) uses - the evaluation counter compared with NMAX, '
+             'the simplex dimensions, fmin - is assigned by that call before its first use on every path (definite assignment; helper members\' reads count '
+             'at their call sites), so neither the result nor the budget guard depends on earlier calls on the same object', 3)
     ctx.sub('bracket', bracket, prog, ctx)
     ctx.sub('brent', brent, prog, ctx)
     ctx.sub('maximum', maximum, prog, ctx)
     ctx.sub('nelder_mead', nelder_mead, prog, ctx)
+    ctx.sub('per_call_state', per_call_state, prog, ctx)
+
+
+def per_call_state(prog, ctx):
+    """C11.g: the scalar members of Minimization that minimize(simplex, func) reads (the evaluation counter compared with NMAX, the simplex
+    dimensions, fmin) are assigned by that call before their first read on every path."""
+    import copy
+    from ..state import DefAssign
+    R = 'C11.g'
+    fn = prog.fn(L + 'Minimization::minimize', 2, pred=lambda f: f.params[0]['ty'].startswith('std::vector<std::vector'))
+    SCALAR = ('int', 'unsigned int', 'double', 'float', 'long', 'unsigned long', 'bool')
+
+    def this_member(n):
+        return n.get('k') == 'Member' and n.get('cls') == L + 'Minimization' and strip(n.get('base') or {'k': 'This'}).get('k') == 'This' and not n.get('method')
+
+    def fields_read(g):
+        out = {}
+        for n in all_exprs(g):
+            if this_member(n):
+                out[n['id']] = n['name']
+        return out
+
+    def rewrite(n):
+        if isinstance(n, list):
+            return [rewrite(x) for x in n]
+        if not isinstance(n, dict):
+            return n
+        if this_member(n):
+            return {'k': 'Ref', 'id': n['id'], 'name': n['name'], 'rk': 'field', 'ty': n.get('ty'), 'l': n.get('l')}
+        m = {k: rewrite(v) for k, v in n.items()}
+        if m.get('k') == 'Call' and m.get('kind') == 'method' and (m.get('callee') or {}).get('inrepo') and (m.get('callee') or {}).get('cls') == L + 'Minimization' \
+                and strip(n.get('obj') or {'k': 'This'}).get('k') == 'This':
+            g = prog.by_sig(m['callee'].get('sig'))
+            if g is not None:
+                # a helper member reads these members of the same object: reads at the call site
+                m['args'] = list(m.get('args', [])) + [{'k': 'Ref', 'id': i_, 'name': nm, 'rk': 'field', 'l': n.get('l')} for i_, nm in fields_read(g).items()]
+        return m
+    tys = {}
+    for n in all_exprs(fn):
+        if this_member(n):
+            tys[n['id']] = (n['name'], str(n.get('ty', '')))
+    # members no method other than a constructor ever writes are configuration fixed at construction (ftol), not per-call state
+    written = set()
+    for g in prog.all_fns() if hasattr(prog, 'all_fns') else list(prog.functions.values()):
+        if not str(getattr(g, 'q', '')).startswith(L + 'Minimization::') or g.q == L + 'Minimization::Minimization' or g.body is None:
+            continue
+        for n in all_exprs(g):
+            t = None
+            if n.get('k') == 'Bin' and n.get('op') in ('=', '+=', '-=', '*=', '/=', '%='):
+                t = n['lhs']
+            elif n.get('k') == 'Un' and n.get('op') in ('++', '--'):
+                t = n['e']
+            if t is not None:
+                t = strip_casts(t)
+                while t.get('k') == 'Index':
+                    t = strip_casts(t['base'])
+                if this_member(t):
+                    written.add(t['id'])
+    tracked = {i_: nm for i_, (nm, ty) in tys.items() if ty in SCALAR and i_ in written}
+    if not tracked:
+        raise AnalysisBroken('no scalar member of Minimization is read in minimize(simplex, func): %s' % tys)
+    f2 = copy.copy(fn)
+    f2.body = rewrite(fn.body)
+    early = DefAssign(prog, f2, tracked).run()
+    by = {}
+    for name, node, why in early:
+        by.setdefault(name, (node, why))
+    for i_, nm in sorted(tracked.items(), key=lambda kv: kv[1]):
+        if nm in by:
+            node, why = by[nm]
+            ctx.violated(R, 'minimize:member:' + nm, fn, 'member `%s` is used (%s, line %s) before this call of minimize assigned it: its value is what an earlier '
+                         'minimisation on the same object left behind (indeterminate on a fresh object)%s' % (nm, why, node.get('l'),
+                         ' - the evaluation budget NMAX is then charged with the evaluations of all earlier calls and a later, easy minimisation stops with '
+                         '"NMAX exceeded"' if nm == 'nfunc' else ''), witness={'first_early_use_line': node.get('l'), 'member': nm})
+        else:
+            ctx.holds(R, 'minimize:member:' + nm, fn, 'assigned by this call on every path before its first use')
 
 
 def bracket(prog, ctx):
